@@ -5,32 +5,37 @@
 (* The trace is judged by the three guards ConnShutdown.tla checks on the design:                                *)
 (*   - a frame is put on a connection channel only while the channels are open;                                  *)
 (*   - when Close returns the channels are closed and every registered, unanswered request is completed;         *)
-(*   - no request is registered after Close has returned.                                                        *)
+(*   - no request is registered after Close has returned;                                                        *)
+(*   - once everything has settled every request ever registered is completed ("quiet", the harness's last line).  *)
 (*   {"a":"reset","trace":k,"side":"client"|"server"}    {"a":<point>,"id":n}                                      *)
 EXTENDS Integers, Sequences, FiniteSets, TLC, Json, IOUtils
 
 TraceFile == IF "TRACE" \in DOMAIN IOEnv THEN IOEnv.TRACE ELSE "trace.ndjson"
 Trace == ndJsonDeserialize(TraceFile)
 
-VARIABLES l, cur, chans, reg, completed, closeDone, rejected
-tvars == <<l, cur, chans, reg, completed, closeDone, rejected>>
+VARIABLES l, cur, chans, reg, added, completed, closeDone, rejected
+tvars == <<l, cur, chans, reg, added, completed, closeDone, rejected>>
 
-Fresh == chans' = "open" /\ reg' = {} /\ completed' = {} /\ closeDone' = FALSE
+Fresh == chans' = "open" /\ reg' = {} /\ added' = {} /\ completed' = {} /\ closeDone' = FALSE
 
 Step(e) ==
-    CASE e.a = "inflight.add" -> ~closeDone /\ reg' = reg \cup {e.id} /\ completed' = completed \ {e.id} /\ UNCHANGED <<chans, closeDone>>
-      [] e.a = "inflight.remove" -> reg' = reg \ {e.id} /\ UNCHANGED <<chans, completed, closeDone>>
-      [] e.a = "req.close" -> completed' = completed \cup {e.id} /\ UNCHANGED <<chans, reg, closeDone>>
-      [] e.a \in {"conn.enqueue", "conn.event", "sconn.enqueue", "sconn.request"} -> chans = "open" /\ UNCHANGED <<chans, reg, completed, closeDone>>
-      [] e.a \in {"conn.chans.closed", "sconn.chans.closed"} -> chans = "open" /\ chans' = "closed" /\ UNCHANGED <<reg, completed, closeDone>>
-      [] e.a \in {"conn.close.done", "sconn.close.done"} -> chans = "closed" /\ reg \subseteq completed /\ ~closeDone /\ closeDone' = TRUE /\ UNCHANGED <<chans, reg, completed>>
+    CASE e.a = "inflight.add" -> /\ ~closeDone /\ reg' = reg \cup {e.id} /\ added' = added \cup {e.id}
+                                 /\ completed' = completed \ {e.id} /\ UNCHANGED <<chans, closeDone>>
+      [] e.a = "inflight.remove" -> reg' = reg \ {e.id} /\ UNCHANGED <<chans, added, completed, closeDone>>
+      [] e.a = "req.close" -> completed' = completed \cup {e.id} /\ UNCHANGED <<chans, reg, added, closeDone>>
+      [] e.a \in {"conn.enqueue", "conn.event", "sconn.enqueue", "sconn.request"} -> chans = "open" /\ UNCHANGED <<chans, reg, added, completed, closeDone>>
+      [] e.a \in {"conn.chans.closed", "sconn.chans.closed"} -> chans = "open" /\ chans' = "closed" /\ UNCHANGED <<reg, added, completed, closeDone>>
+      [] e.a \in {"conn.close.done", "sconn.close.done"} -> chans = "closed" /\ reg \subseteq completed /\ ~closeDone /\ closeDone' = TRUE /\ UNCHANGED <<chans, reg, added, completed>>
+      \* the harness's own last line, once the connection is closed and everything has settled: every request ever
+      \* registered has been completed (a stream id may have carried several requests: the last one counts)
+      [] e.a = "quiet" -> closeDone /\ added \subseteq completed /\ UNCHANGED <<chans, reg, added, completed, closeDone>>
       [] OTHER -> FALSE
 
 NextReset(i) == IF \E j \in i..Len(Trace) : Trace[j].a = "reset"
                 THEN CHOOSE j \in i..Len(Trace) : Trace[j].a = "reset" /\ \A m \in i..(j - 1) : Trace[m].a # "reset"
                 ELSE Len(Trace) + 1
 
-TInit == l = 1 /\ cur = 0 /\ chans = "open" /\ reg = {} /\ completed = {} /\ closeDone = FALSE /\ rejected = {}
+TInit == l = 1 /\ cur = 0 /\ chans = "open" /\ reg = {} /\ added = {} /\ completed = {} /\ closeDone = FALSE /\ rejected = {}
 
 TNext == /\ l <= Len(Trace)
          /\ LET e == Trace[l] IN
@@ -38,7 +43,7 @@ TNext == /\ l <= Len(Trace)
             ELSE IF ENABLED Step(e) THEN Step(e) /\ l' = l + 1 /\ UNCHANGED <<cur, rejected>>
             ELSE /\ rejected' = rejected \cup {<<cur, l, e.a, e.id>>}
                  /\ l' = NextReset(l)
-                 /\ UNCHANGED <<cur, chans, reg, completed, closeDone>>
+                 /\ UNCHANGED <<cur, chans, reg, added, completed, closeDone>>
 
 TSpec == TInit /\ [][TNext]_tvars
 Done == l = Len(Trace) + 1
